@@ -156,25 +156,30 @@ HISTORY_KEYS = ("vJ", "vMin", "Tnucl", "alN", "psiN", "TMinHighT", "TMaxHighT", 
 
 def history_worst(H, B):
     """Largest relative difference between two {"hydro":…, "lte":…} results -> (value, name)."""
-    worst = (0.0, None)
+    worst = [0.0, None]
+
+    def upd(val, key):
+        if val > worst[0] or worst[1] is None:
+            worst[0], worst[1] = val, key
+
     for key in HISTORY_KEYS:
         xa, xb = H["hydro"].get(key), B["hydro"].get(key)
         xa = xa if isinstance(xa, list) else [xa]
         xb = xb if isinstance(xb, list) else [xb]
         scale = max([abs(t) for t in xb if isinstance(t, (int, float))] + [1e-300])
         if len(xa) != len(xb):
-            worst = max(worst, (float("inf"), key))
+            upd(float("inf"), key)
         for ta, tb in zip(xa, xb):
             if isinstance(ta, (int, float)) and isinstance(tb, (int, float)):
-                worst = max(worst, (abs(ta - tb) / scale, key))
+                upd(abs(ta - tb) / scale, key)
             elif ta != tb:
-                worst = max(worst, (float("inf"), key))
+                upd(float("inf"), key)
     la_, lb_ = H.get("lte"), B.get("lte")
     if isinstance(la_, (int, float)) and isinstance(lb_, (int, float)):
-        worst = max(worst, (abs(la_ - lb_), "vwLTE"))
+        upd(abs(la_ - lb_), "vwLTE")
     elif la_ != lb_ or (("lte_error" in H) != ("lte_error" in B)):
-        worst = max(worst, (float("inf"), "vwLTE"))
-    return worst
+        upd(float("inf"), "vwLTE")
+    return tuple(worst)
 
 
 def fresh_run(job, timeout=600):
